@@ -357,20 +357,32 @@ def _aminmax(a, dim=None, keepdim=False):
 
 
 def argmax_1d(vals, first=True):
-    """index of the maximum (first occurrence on ties) by forking on comparisons"""
-    best = 0
-    for i in range(1, len(vals)):
-        if core.CUR.branch(e_gt(vals[i], vals[best])):
-            best = i
-    return best
+    """index of the maximum (first occurrence on ties): one fork per candidate winner (n paths, not 2^(n-1) comparison orders)"""
+    n = len(vals)
+    if n == 1:
+        return 0
+    for k in range(n - 1):
+        conds = [e_gt(vals[k], vals[j]) for j in range(k)] + [e_ge(vals[k], vals[j]) for j in range(k + 1, n)]
+        if any(c is False for c in conds):
+            continue
+        conds = [lift(c, 'b') for c in conds if c is not True]
+        if core.CUR.branch(z3.And(conds) if len(conds) > 1 else (conds[0] if conds else True)):
+            return k
+    return n - 1
 
 
 def argmin_1d(vals):
-    best = 0
-    for i in range(1, len(vals)):
-        if core.CUR.branch(e_lt(vals[i], vals[best])):
-            best = i
-    return best
+    n = len(vals)
+    if n == 1:
+        return 0
+    for k in range(n - 1):
+        conds = [e_lt(vals[k], vals[j]) for j in range(k)] + [e_le(vals[k], vals[j]) for j in range(k + 1, n)]
+        if any(c is False for c in conds):
+            continue
+        conds = [lift(c, 'b') for c in conds if c is not True]
+        if core.CUR.branch(z3.And(conds) if len(conds) > 1 else (conds[0] if conds else True)):
+            return k
+    return n - 1
 
 
 def _arg_red(x, dim, keepdim, fn1d):
@@ -725,14 +737,49 @@ def _cudnn_bn(*a, **k):
     raise EngineError("cudnn batch norm")
 
 
+SOFTMAX_ABSTRACT = True
+
+
 @reg(aten._softmax.default)
 def _softmax(x, dim, half_to_float):
+    """softmax over symbolic logits.  Default model: an arbitrary ORDER-PRESERVING MAP INTO THE OPEN SIMPLEX - the outputs of each
+    group are fresh reals constrained by theta_i > 0, sum theta = 1, (x_i > x_j <=> theta_i > theta_j), (x_i = x_j <=> theta_i = theta_j) and
+    congruence (equal logits give equal outputs across calls).  The real softmax is one such map, so whatever is proved for all of them
+    holds for it.  With SOFTMAX_ABSTRACT = False the outputs are exp(x_i) / sum exp(x_j) with exp an uninterpreted increasing function."""
     X = to_arr(x)
+    ex = core.CUR
+    dim = dim % max(X.ndim, 1)
+    if SOFTMAX_ABSTRACT and X.ndim:
+        out = np.empty(X.shape, dtype=object)
+        Xm, Om = np.moveaxis(X, dim, -1), np.moveaxis(out, dim, -1)
+        cache = ex.uf_cache.setdefault('softmax_groups', [])
+        for idx in np.ndindex(*Xm.shape[:-1]):
+            xs = [lift(v, 'r') for v in Xm[idx]]
+            key = tuple(v.get_id() for v in xs)
+            hit = next((o for k, _, o in cache if k == key), None)
+            if hit is None:
+                os_ = [ex.fresh('sm', 'r') for _ in xs]
+                for o in os_:
+                    ex.add_axiom(o > 0)
+                    ex.add_axiom(o <= 1)
+                ex.add_axiom(z3.Sum(os_) == 1)
+                for i in range(len(xs)):
+                    for j in range(i + 1, len(xs)):
+                        ex.add_axiom(z3.Implies(xs[i] > xs[j], os_[i] > os_[j]))
+                        ex.add_axiom(z3.Implies(xs[i] < xs[j], os_[i] < os_[j]))
+                        ex.add_axiom(z3.Implies(xs[i] == xs[j], os_[i] == os_[j]))
+                for k2, xs2, os2 in cache:
+                    if len(xs2) == len(xs):
+                        ex.add_axiom(z3.Implies(z3.And([a == b for a, b in zip(xs, xs2)]), z3.And([a == b for a, b in zip(os_, os2)])))
+                cache.append((key, xs, os_))
+                hit = os_
+            for k_, o in enumerate(hit):
+                Om[idx + (k_,)] = o
+        return SymTensor.from_array(out, x.dtype)
     E = np.empty(X.shape, dtype=object)
     for idx in np.ndindex(*X.shape):
         E[idx] = e_exp(X[idx])
     out = np.empty(X.shape, dtype=object)
-    dim = dim % max(X.ndim, 1)
     tot = _reduce(E, dim, True, e_add, Fraction(0)) if X.ndim else E
     ng = len(core.CUR.guards)
     for idx in np.ndindex(*X.shape):
@@ -742,26 +789,6 @@ def _softmax(x, dim, half_to_float):
         out[idx] = e_div(E[idx], tot[tuple(k)] if X.ndim else tot[()])
     # the denominator is a sum of positive terms: its division guards are discharged here
     del core.CUR.guards[ng:]
-    # valid lemmas about softmax (consequences of exp > 0 and exp strictly increasing) that spare z3 the non-linear
-    # reasoning through the division: positivity, normalisation and order preservation inside each group
-    if X.ndim:
-        Xm, Om = np.moveaxis(X, dim, -1), np.moveaxis(out, dim, -1)
-        for idx in np.ndindex(*Xm.shape[:-1]):
-            xs, os_ = list(Xm[idx]), list(Om[idx])
-            if not any(is_sym(v) for v in os_):
-                continue
-            ex = core.CUR
-            for o in os_:
-                if is_sym(o):
-                    ex.add_axiom(o > 0)
-                    ex.add_axiom(o <= 1)
-            ex.add_axiom(z3.Sum([lift(o, 'r') for o in os_]) == 1)
-            for i in range(len(xs)):
-                for j in range(i + 1, len(xs)):
-                    xi, xj, oi, oj = lift(xs[i], 'r'), lift(xs[j], 'r'), lift(os_[i], 'r'), lift(os_[j], 'r')
-                    ex.add_axiom(z3.Implies(xi > xj, oi > oj))
-                    ex.add_axiom(z3.Implies(xi < xj, oi < oj))
-                    ex.add_axiom(z3.Implies(xi == xj, oi == oj))
     return SymTensor.from_array(out, x.dtype)
 
 
